@@ -165,10 +165,10 @@ func familyOfCtor(p *Prog, ctor *ssa.Function) map[string]bool {
 func runC20(p *Prog, r *Report) {
 	// enum constants and canonical names
 	type enc struct {
-		enum  int64
+		enum   int64
 		const_ string
-		name  string // lower(suffix)
-		fam   string
+		name   string // lower(suffix)
+		fam    string
 	}
 	wantFam := map[string]string{"identity": "noop", "gzip": "gzip", "br": "brotli", "zstd": "zstd", "deflate": "zlib", "snappy": "snappy"}
 	var encs []enc
